@@ -24,14 +24,108 @@ ASSUMPTIONS = [
 ]
 
 
+def imports_of(text):
+    """module names after FROM in the IMPORTS clause of a generated text (plain layout, no comments)"""
+    import re
+    m = re.search(r'\bIMPORTS\b(.*?);', text, re.S)
+    return re.findall(r'\bFROM\s+([A-Za-z][A-Za-z0-9-]*)', m.group(1)) if m else []
+
+
+def real_run(texts, requested, absent=(), dialect='smiV1Relaxed'):
+    """compile through the real parser / symbol pass / JSON generator with a reader that records what it is asked for;
+    modules in `absent` are not served although the harness has them"""
+    from pysmi.compiler import MibCompiler
+    from pysmi.reader.callback import CallbackReader
+    from pysmi.writer.callback import CallbackWriter
+    from pysmi.searcher.stub import StubSearcher
+    from pysmi.codegen.jsondoc import JsonCodeGen
+    from pysmi.codegen.pysnmp import PySnmpCodeGen
+    from impl import pipeline
+    asked = []
+
+    def read(name, c):
+        asked.append(name)
+        if name in absent:
+            return ''
+        return texts[name] if name in texts else (pipeline.base_text(name) or '')
+    comp = MibCompiler(pipeline.get_parser(dialect), JsonCodeGen(), CallbackWriter(lambda n, d, c: None))
+    comp.addSources(CallbackReader(read))
+    comp.addSearchers(StubSearcher(*PySnmpCodeGen.baseMibs))
+    st = comp.compile(*requested, ignoreErrors=True, genTexts=False)
+    return {k: str(v) for k, v in st.items()}, asked
+
+
+def imports_failures(texts, requested, absent):
+    st, asked = real_run(texts, requested, absent)
+    bad = []
+    seen, todo = set(), list(requested)
+    while todo:                                     # the closure by the texts themselves
+        n = todo.pop()
+        if n in seen:
+            continue
+        seen.add(n)
+        from impl import pipeline
+        t = None if n in absent else (texts.get(n) or pipeline.base_text(n))
+        if t:
+            todo.extend(imports_of(t))
+    for n in sorted(seen):
+        if n not in st:
+            bad.append('%s is requested or named in an IMPORTS clause of the closure but has no status' % n)
+        if n not in asked:
+            bad.append('%s is requested or named in an IMPORTS clause of the closure but no source was asked for it' % n)
+        if asked.count(n) > 1:
+            bad.append('%s was looked up %d times in one call' % (n, asked.count(n)))
+    return bad
+
+
+def real_stream(ctx):
+    """the import closure on the real components: generated SMIv2 sets and SMIv1 modules (whose imports are rewritten to
+    their SMIv2 homes by the symbol pass), with some of the imported base modules not available"""
+    import random
+    from gen import mibgen, v1gen
+    res = ctx.res
+    n = 40 if ctx.tier == 'quick' else 600
+    for i in range(n):
+        seed = ctx.seed * 100000 + 80000 + i
+        rng = random.Random(seed)
+        if i % 2 == 0:
+            g = v1gen.V1Gen(random.Random(seed), size=rng.choice([4, 6, 9]), alt_homes=(i % 3 == 0)).build()
+            texts = {g.name: v1gen.render(g, 'v1')}
+        else:
+            sg = mibgen.SetGen(rng, n_modules=rng.choice([2, 3]))
+            sg.build()
+            texts = {name: mibgen.print_module(m, random.Random(seed)) for name, m in sg.modules.items()}
+        named = sorted(set(f for t in texts.values() for f in imports_of(t)))
+        absent = [x for x in named if rng.random() < 0.3]
+        requested = sorted(texts) if i % 4 != 3 else sorted(texts)[:1]
+        res.case(('real-imports', tuple(sorted(texts.items())), tuple(absent), tuple(requested)), True)
+        res.count('real-imports:' + ('smiv1' if i % 2 == 0 else 'smiv2'))
+        try:
+            bad = imports_failures(texts, requested, absent)
+        except Exception as e:
+            bad = ['compile() raised %s: %s' % (type(e).__name__, str(e)[:100])]
+        for b in bad[:2]:
+            res.oracle_failures.append({'key': 'real-imports', 'what': b, 'input': {'texts': texts, 'requested': requested, 'absent': absent, 'real_imports': True}})
+
+
 def run(ctx):
     n = 1200 if ctx.tier == 'quick' else 12000
     cc.run_stream(ctx, 'C08', n, 600 if ctx.tier == 'quick' else 6000)
+    real_stream(ctx)
 
 
 def search(ctx):
     cc.run_stream(ctx, 'C08', 6000, 3000)
+    ctx.tier = 'thorough'
+    real_stream(ctx)
 
 
 def replay(payload):
+    inp = payload['input']
+    if inp.get('real_imports'):
+        try:
+            bad = imports_failures(inp['texts'], inp['requested'], inp['absent'])
+        except Exception as e:
+            bad = [repr(e)]
+        return {'fails': bool(bad), 'what': bad[:5]}
     return cc.replay_scenario('C08', payload)
